@@ -1,4 +1,4 @@
-import LokiModel.C27.Lemmas
+import LokiModel.C27.Raw
 /-!
 # C27 — dependency queries report every actual dependency (property theorems)
 
@@ -72,6 +72,62 @@ theorem trS_doLoop_iterations (p : Program) (f : Nat) (v : String) (lo hi : Ex) 
     trS p (f + 1) (.doLoop v lo hi none body) st =
       rds (boundVars lo hi none) ++ (trIter p f v body 1 (tripCount l h 1) l st).flatten := by
   simp [trS, hl, hh]
+
+theorem mem_duL_of_mem (c : Ctx) {s : Stmt} {ss : List Stmt} (h : s ∈ ss) : du c s ∈ duL c ss := by
+  induction ss with
+  | nil => cases h
+  | cons a r ih =>
+    simp only [duL, List.mem_cons]
+    rcases List.mem_cons.mp h with rfl | h'
+    · exact Or.inl rfl
+    · exact Or.inr (ih h')
+
+theorem duL_flatMap (c : Ctx) (ss : List Stmt) :
+    (duL c ss).flatMap (·.1) = ss.flatMap (fun s => (du c s).1) := by
+  induction ss with
+  | nil => simp [duL]
+  | cons s r ih => simp [duL, ih]
+
+/-- **raw_complete (partial), straight-line code**: let the ir be a list of leaf statements (assignments, PRINT, EXIT,
+CYCLE, comments/pragmas) `pre ++ node :: post`.  If a run of `pre` writes `x` and a run of `node :: post` (from any
+state) reads `x` before completely rewriting it, then `read_after_write_vars(ir, node)` reports `x` — provided that
+from the node on no PRINT reads `x` (C26 class) and every leaf that has `x` in its defines is an assignment to the plain
+name `x` (otherwise class `raw-partial-clears`).  Missing for the full property: compound statements in the ir (IF is
+believed to be handled correctly by the branch-wise union; loops and SELECT CASE are the classes `raw-loop-clears`,
+`raw-select-clears`, `raw-inside-select`, `raw-node-inside-loop`), ASSOCIATE and CALL. -/
+theorem raw_complete_flat_partial (p : Program) (c : Ctx) (f f' : Nat) (pre : List Stmt) (node : Stmt)
+    (post : List Stmt) (st st1 : St) (x : String)
+    (hflat : flat (pre ++ node :: post) = true)
+    (hw : wroteB x (trSs p f pre st) = true)
+    (hr : rbwB x (trSs p f' (node :: post) st1) = true)
+    (hok : rawOK c x (node :: post)) :
+    x ∈ names (readAfterWrite c (pre ++ node :: post) (sizeL pre)) := by
+  have hf' : flat pre = true ∧ flat (node :: post) = true := by
+    simp [flat] at hflat ⊢
+    exact ⟨hflat.1, hflat.2.1, hflat.2.2⟩
+  rw [sizeL_flat hf'.1]
+  unfold readAfterWrite
+  rw [frL_append, frL_pre c _ pre _ hf'.1 rfl (by simp)]
+  apply frL_post p c pre.length x (node :: post) f' st1 _ hf'.2 (Or.inr (by simp)) _ hok hr
+  -- the candidate set contains x
+  show (x, "") ∈ findWrites c (pre ++ node :: post) pre.length
+  rw [findWrites_flat c pre node post hflat]
+  have hd : x ∈ names (bodyDU c pre).1 := by
+    rcases (invA p c f).stmts pre st x hw with h | h
+    · exact h
+    · rw [loopVarsL_flat hf'.1] at h; cases h
+  rw [bodyDU_fst, duL_flatMap] at hd
+  have hek : EK (pre.flatMap (fun s => (du c s).1)) := by
+    intro v hv
+    obtain ⟨s, hs, hvs⟩ := List.mem_flatMap.mp hv
+    have := EK_duL c pre (coveredL_flat hf'.1) (du c s) (mem_duL_of_mem c hs)
+    exact this.1 v hvs
+  exact mem_of_names_EK hek hd
+
+/-- non-vacuity: `x = 1 ; <pragma> ; y = x` — hypotheses hold and `x` is reported -/
+example : names (readAfterWrite ⟨⟨[], "k"⟩, false⟩
+    [.assign (.var "x") (.lit (.int 1)), .nop "pragma" "loki mark", .assign (.var "y") (.var "x")] 1) = ["x"] := by
+  decide
 
 /-! ### non-vacuity: `do i = …; s = s + y(i); end do` is outside every class and the accumulator is reported -/
 
